@@ -73,6 +73,7 @@ type cniHarness struct {
 	kube    *kubefake.Clientset
 	rest    *restful.Container
 	kern    *nfsim.Kernel
+	pmh     *portmapping.PortMappingHandler
 	cidPfx  string
 	created []string
 }
@@ -125,6 +126,7 @@ func newCNIHarness(conf daemonConf) (*cniHarness, error) {
 		return nil, err
 	}
 	g.VerifSetPortMappingHandler(pmh)
+	h.pmh = pmh
 	h.g = g
 	c := restful.NewContainer()
 	c.DoNotRecover(true)
@@ -137,6 +139,11 @@ func newCNIHarness(conf daemonConf) (*cniHarness, error) {
 }
 
 func (h *cniHarness) close() {
+	if h.pmh != nil {
+		for _, o := range h.pmh.VerifOpenPorts() {
+			h.pmh.CloseHostports(strings.SplitN(o, " ", 2)[0])
+		}
+	}
 	for _, cid := range h.created {
 		_ = os.Remove(filepath.Join("/var/lib/cni/galaxy", cid))
 		_ = os.Remove(filepath.Join("/var/lib/cni/galaxy/port", cid))
@@ -146,6 +153,14 @@ func (h *cniHarness) close() {
 
 // reset clears the plugin log, the control file and the state files of our containers.
 func (h *cniHarness) reset() {
+	// host ports still held from the previous run are closed and the NAT table starts from the daemon's basic rules
+	if h.pmh != nil {
+		for _, o := range h.pmh.VerifOpenPorts() {
+			h.pmh.CloseHostports(strings.SplitN(o, " ", 2)[0])
+		}
+		h.kern.ClearTable("nat")
+		_ = h.pmh.EnsureBasicRule()
+	}
 	_ = os.RemoveAll(filepath.Join(h.dir, "log"))
 	_ = os.MkdirAll(filepath.Join(h.dir, "log"), 0o755)
 	for _, cid := range h.created {
